@@ -47,13 +47,40 @@ SIG_PID = 'C08:gauge-label-named-pid'          # known finding of C08; excluded 
 
 
 # ------------------------------------------------------------------------------------------------ wire
-def wire_op(op):
+ACTS = ('touch', 'inc', 'dec', 'set', 'observe', 'reset', 'set_to_current_time', 'state', 'info')
+
+
+class Unsupported(Exception):
+    """an op shape C12 does not drive (C01 keeps adding its own: caller-side mutations, ...)"""
+
+
+def supported(op):
+    if not isinstance(op, (list, tuple)) or not op:
+        return False
+    if op[0] == 'collect':
+        return len(op) == 2
+    if op[0] == 'clear':
+        return len(op) == 2
+    if op[0] == 'remove':
+        return len(op) == 3
+    return op[0] == 'call' and len(op) == 6 and op[4] in ACTS
+
+
+def wire_op(op, t=1.0):
+    """`t`: what the scripted clock shows during the op (`set_to_current_time` is a `set` of it)"""
+    if not supported(op):
+        raise Unsupported(repr(op)[:80])
     if op[0] == 'clear':
         return 'clear/%d' % op[1]
     if op[0] == 'remove':
         return 'remove/%d/%s' % (op[1], c01.wire_list([c01.wire_pyval(v) for v in op[2]]))
-    w = c01.wire_op(['call'] + op[2:])              # call/<args>/<kws>/<act>/<arg>
-    return 'call/%d/%s' % (op[1], w[len('call/'):])
+    _, i, args, kws, act, arg = op
+    if act == 'set_to_current_time':
+        act, arg = 'set', F(t)
+    w = c01.wire_op(['call', args, kws, act, arg])              # call/<args>/<kws>/<act>/<arg>
+    if not w.startswith('call/') or w.count('/') != 4:
+        raise Unsupported(w[:80])
+    return 'call/%d/%s' % (i, w[len('call/'):])
 
 
 def wire_spec(spec):
@@ -79,7 +106,7 @@ def wire_line(case):
     specs = '|'.join(wire_spec(s) for s in case['specs']) or '.'
     clock = c01.wire_list([lib.fbits(t) for t in case['clock']])
     return 'c12 run %s %s %s %s' % (lib.hx(str(case['pid'])), clock, specs,
-                                    c01.wire_list([wire_op(o) for o in case['ops']], ';'))
+                                    c01.wire_list([wire_op(o, t) for o, t in zip(case['ops'], case['clock'])], ';'))
 
 
 def parse_labels(f):
@@ -147,6 +174,10 @@ def do_op(ms, op, track):
     if act == 'touch':
         return
     meth = getattr(target, act)
+    if act == 'set_to_current_time':
+        meth()
+        track(i, tuple(target._labelvalues), 'set', 1)
+        return
     if act in ('inc', 'dec', 'set', 'observe'):
         x = py_of(arg)
         meth(x)
@@ -476,7 +507,13 @@ def gen_spec(rng, name, kind=None, mode=None, legacy=True):
 
 
 def tag(ops, i):
-    return [[op[0], i] + list(op[1:]) for op in ops]
+    """C01's ops on metric `i`; op shapes C12 does not drive (C01's caller-side `mutate`, future ones) are dropped"""
+    out = []
+    for op in ops:
+        t = [op[0], i] + list(op[1:])
+        if supported(t) and t[0] != 'collect':
+            out.append(t)
+    return out
 
 
 def gen_case(rng, length, removal):
@@ -496,16 +533,31 @@ def gen_case(rng, length, removal):
         ops.append(per[j].pop(0))
     if not removal:
         ops = [o for o in ops if o[0] == 'call']
+    for o in ops:
+        if o[0] == 'call' and o[4] == 'set' and specs[o[1]]['kind'] == 'gauge' and rng.random() < 0.3:
+            o[4], o[5] = 'set_to_current_time', None
+        elif o[0] == 'call' and o[4] in ('inc', 'observe') and rng.random() < 0.01:
+            o[4], o[5] = 'set_to_current_time', None          # not a method of the other classes: AttributeError on both
     return make_case(specs, ops, rng.choice(PIDS), legacy, rng)
 
 
-def make_case(specs, ops, pid=7, legacy=True, rng=None):
-    clock = []
-    t = 1000.0
-    for _ in ops:
-        t += (rng.choice([0.0, 0.5, 1.0, 3.25]) if rng else 1.0)
-        clock.append(t)
-    return {'specs': specs, 'ops': ops, 'pid': pid, 'legacy': legacy, 'clock': clock}
+WILD_CLOCK = [1000.0, 1000.0, 999.5, 1001.25, 998.0, 1003.0, 5.0, 1e9, 1000.5]
+
+
+def make_case(specs, ops, pid=7, legacy=True, rng=None, clock=None):
+    """the scripted clock: one positive reading per op — non-decreasing, or (a third of the random cases) drawn at
+    random with equal and DECREASING readings (a wall clock stepping backwards)"""
+    if clock is None:
+        clock = []
+        wild = rng is not None and rng.random() < 0.33
+        t = 1000.0
+        for _ in ops:
+            if wild:
+                t = rng.choice(WILD_CLOCK)
+            else:
+                t += (rng.choice([0.0, 0.5, 1.0, 3.25]) if rng else 1.0)
+            clock.append(t)
+    return {'specs': specs, 'ops': ops, 'pid': pid, 'legacy': legacy, 'clock': list(clock)}
 
 
 def gen_growth_case(rng, mmap_size, children):
@@ -582,6 +634,15 @@ def corpus():
                                   call(0, [S('y')], 'set', F(-0.0)), call(0, None, 'inc', F(1.0))]))
         cs.append(make_case([mspec('gauge', mode=mode)], []))
         cs.append(make_case([mspec('gauge', mode=mode)], [call(0, None, 'set', F(0.0))]))
+    # set_to_current_time in every mode (alone, and after a set); a mostrecent gauge set twice while the clock steps back
+    for mode in MODES:
+        g = mspec('gauge', labelnames=['l'], mode=mode)
+        cs.append(make_case([g], [call(0, [S('x')], 'set_to_current_time'), call(0, [S('y')], 'set', F(3.0)),
+                                  call(0, [S('y')], 'set_to_current_time'), call(0, None, 'set_to_current_time')],
+                            clock=[1005.0, 1006.0, 1004.0, 1007.0]))
+        cs.append(make_case([mspec('gauge', mode=mode)], [call(0, None, 'set_to_current_time')], clock=[1234.5]))
+        cs.append(make_case([mspec('gauge', mode=mode)], [call(0, None, 'set', F(1.0)), call(0, None, 'set', F(2.0)),
+                                                            call(0, None, 'set', F(3.0))], clock=[1005.0, 1003.0, 1003.0]))
     # untouched metrics, labelled parent without children, child created but never updated
     for kind in KINDS:
         cs.append(make_case([mspec(kind, mode='all')], []))
@@ -776,8 +837,15 @@ class Batch:
 
     def flush(self):
         ctx = self.ctx
-        items, self.items = self.items, []
-        replies = mpsim.driver_run(ctx, [wire_line(c) for c, _ in items])
+        queued, self.items = self.items, []
+        items, lines = [], []
+        for c, r in queued:
+            try:
+                lines.append(wire_line(c))
+                items.append((c, r))
+            except Exception as e:
+                ctx.count('wire:skipped:' + type(e).__name__)      # an op shape the c12 protocol does not carry
+        replies = mpsim.driver_run(ctx, lines)
         if replies is None:
             return
         for (case, run), rep in zip(items, replies):
@@ -889,9 +957,10 @@ def run(ctx):
     import time
     ctx.rule = ('one case = 1-3 metrics (counter / gauge in each of the ten multiprocess modes / summary / histogram; 0-3 '
                 'labels, legacy and UTF-8 label names, arbitrary sorted bucket layouts incl. negative, zero, duplicate, '
-                '>=1e6 and >=1e16 bounds) and one C01-style history (inc/dec/set/observe/reset addressed directly, '
+                '>=1e6 and >=1e16 bounds) and one C01-style history (inc/dec/set/set_to_current_time/observe/reset addressed directly, '
                 'positionally or by keyword, labels() alone, remove, clear; amounts ordinary, >2^53, tiny, negative, +-Inf, '
-                'NaN, ints, bools, on a bound and next to it) run against BOTH real back-ends and both Lean models; '
+                'NaN, ints, bools, on a bound and next to it; scripted positive clock, in a third of the random cases with equal and '
+                'decreasing readings) run against BOTH real back-ends and both Lean models; '
                 'every word of length 2 over C01\'s 12-call (two-label) and 9-call (unlabelled) alphabets per type and '
                 'gauge mode; histories with 1-3 intermediate collections (>= 2 collections, operations between them), the store files\' '
                 'mtimes set to now / 3 s / 1 h in the past / left alone before each collection, the oracle evaluated at every collection point; '
